@@ -556,3 +556,104 @@ func recvArg(c ssa.CallInstruction) ssa.Value {
 	}
 	return nil
 }
+
+// ---------------------------------------------------------------------------------------------
+// guards: the branch conditions that must hold (with polarity) for an instruction to execute
+
+type guard struct {
+	cond ssa.Value
+	pol  bool // true: cond must be true
+	at   *ssa.If
+}
+
+// guardsOf walks the dominator tree from the block of `in` to the entry; every dominating `If` one of
+// whose successors dominates the block (while the other does not) contributes a guard.
+func guardsOf(b *ssa.BasicBlock) []guard {
+	var out []guard
+	for d := b.Idom(); d != nil; d = d.Idom() {
+		iff, ok := d.Instrs[len(d.Instrs)-1].(*ssa.If)
+		if !ok {
+			continue
+		}
+		t, f := d.Succs[0], d.Succs[1]
+		td := (t == b || t.Dominates(b)) && len(t.Preds) == 1
+		fd := (f == b || f.Dominates(b)) && len(f.Preds) == 1
+		if td && !fd {
+			out = append(out, guard{iff.Cond, true, iff})
+		} else if fd && !td {
+			out = append(out, guard{iff.Cond, false, iff})
+		}
+	}
+	return out
+}
+
+// cmp decomposes a comparison value.
+func asCmp(v ssa.Value) (op token.Token, x, y ssa.Value, ok bool) {
+	b, isB := v.(*ssa.BinOp)
+	if !isB {
+		return 0, nil, nil, false
+	}
+	switch b.Op {
+	case token.EQL, token.NEQ, token.LSS, token.LEQ, token.GTR, token.GEQ:
+		return b.Op, b.X, b.Y, true
+	}
+	return 0, nil, nil, false
+}
+
+// isLenOf: v == len(x) where pred(x)
+func isLenOf(v ssa.Value, pred func(ssa.Value) bool) bool {
+	c, ok := v.(*ssa.Call)
+	if !ok || !isBuiltin(c, "len") {
+		return false
+	}
+	return pred(c.Call.Args[0])
+}
+
+// hasGuard reports whether some guard of block b satisfies pred.
+func hasGuard(b *ssa.BasicBlock, pred func(g guard) bool) bool {
+	for _, g := range guardsOf(b) {
+		if pred(g) {
+			return true
+		}
+	}
+	return false
+}
+
+// nilCheckGuard: guard equivalent to "v != nil" (pol true on NEQ, pol false on EQL) for value matching pred.
+func guardNonNil(g guard, pred func(ssa.Value) bool) bool {
+	op, x, y, ok := asCmp(g.cond)
+	if !ok {
+		return false
+	}
+	var v ssa.Value
+	if isNilConst(y) {
+		v = x
+	} else if isNilConst(x) {
+		v = y
+	} else {
+		return false
+	}
+	if !pred(v) {
+		return false
+	}
+	return (op == token.NEQ && g.pol) || (op == token.EQL && !g.pol)
+}
+
+func guardIsNil(g guard, pred func(ssa.Value) bool) bool {
+	op, x, y, ok := asCmp(g.cond)
+	if !ok {
+		return false
+	}
+	var v ssa.Value
+	if isNilConst(y) {
+		v = x
+	} else if isNilConst(x) {
+		v = y
+	} else {
+		return false
+	}
+	if !pred(v) {
+		return false
+	}
+	return (op == token.EQL && g.pol) || (op == token.NEQ && !g.pol)
+}
